@@ -58,6 +58,12 @@ deep = function(k) return 1 + obj(k) end""", "pcall(deep, 1)", 3, 1, 1, 12, 60),
                       "pcall(deep, 1)", 0, 3, 1, 30, 60),
     "xpcall-handler": ("deep = function(k) n = k; if k >= lim then return 0 end; return 1 + deep(k + 1) end",
                        'xpcall(function() return 1 + deep(1) end, function(m) return "H:" .. tostring(m) end)', 3, 1, 1, 12, 60),
+    # every level tail-calls into a frame that needs many registers: the overflow is raised while OP_TAILCALL
+    # sets up the reused frame
+    "tail-into-wide-frame": ("local wide = function(k) local " + ", ".join("b%d" % i for i in range(1, 61)) +
+                             " = k\n  n = k; if k >= lim then return 0 end; return 1 + deep(k + 1) + (b60 or 0) end\n"
+                             "deep = function(k) local t1, t2 = k, k; return wide(k) end",
+                             "pcall(deep, 1)", 2, 1, 55, 80, 160),
     "heavy-frames": ("deep = function(k) n = k; if k >= lim then return 0 end\n  local " +
                      ", ".join("a%d" % i for i in range(1, 61)) + " = k\n  return 1 + deep(k + 1) + (a60 or 0) end",
                      "pcall(deep, 1)", 2, 1, 55, 80, 160),
@@ -70,7 +76,7 @@ def rec_probe(shape, m, in_coroutine=False):
     if in_coroutine:
         src = "coroutine.wrap(function()\n" + src + "\nend)()\n"
     return {"name": "rec:" + shape + (":coroutine" if in_coroutine else ""), "src": src, "B": B, "F": F, "B0": 2,
-            "amin": amin, "amax": amax, "cmax": cmax, "fm": m, "stack": shape != "heavy-frames"}
+            "amin": amin, "amax": amax, "cmax": cmax, "fm": m, "stack": shape not in ("heavy-frames", "tail-into-wide-frame")}
 
 
 REG_TEMPLATE = """
@@ -250,3 +256,99 @@ emit(xpcall(function() local z = nil; return z.field end, function(m) return "H"
 emit(select("#", pcall(error)))
 """,
 }
+
+
+# ---- coroutine value transfers that overflow the RECEIVING register file ------------
+# (scenario scripts of specs/LuaCoTransferTrace.tla; K = length of the long list,
+#  D = recursion depth that fills the receiver's register file, 22 registers a level)
+
+CO_LOCALS = ", ".join("l%d" % i for i in range(1, 21))
+
+CO_PRELUDE = """
+local K, D = %(K)d, %(D)d
+local big = {} for i = 1, K do big[i] = i end
+local me = coroutine.running()
+local co
+local function report(nin, a1, a2, r)       -- r = {pcall(...)} of the attempt, sampled right after it
+  emit("ev", nin, tostring(a1), tostring(a2), coroutine.status(co), coroutine.running() == me,
+       #r, tostring(r[1]), tostring(r[2]), tostring(r[3]), tostring(r[4]), tostring(r[5]), type(r[2]), type(r[3]))
+end
+local function deep(k, f)                   -- run f at recursion depth k (fills this thread's registers)
+  local %(LOC)s = k
+  if k == 0 then local r = f(); return r, l20 end     -- (not a tail call: the frame keeps its registers)
+  local a = deep(k - 1, f)
+  return a, l20
+end
+"""
+
+CO_EPILOGUE = """
+emit("fresh", coroutine.resume(coroutine.create(function(a) return "fresh", a + 1 end), 8))
+%(follow)s
+"""
+
+# resume(...) stands for coroutine.resume(co, ...) or the wrap function
+CO_SCENARIOS = {
+    # a suspended coroutine that has recursed deeply is resumed with a long argument list
+    "echo": ("""
+local body = function(a)
+  co = co or coroutine.running()
+  local x, y = deep(D, function() return {coroutine.yield("ready", a)} end)
+  x, y = x[1], x[2]
+  return "done", x, y
+end
+%(make)s
+report(1, 7, nil, {pcall(%(resume)s 7)})
+report(K, 1, 2, {pcall(%(resume)s unpack(big, 1, K))})
+if coroutine.status(co) ~= "dead" then report(2, 11, 22, {pcall(%(resume)s 11, 22)}) end
+""", 3),
+    # the FIRST resume of a fresh coroutine with more arguments than its register file takes
+    "vararg": ("""
+local body = function(...)                 -- a vararg frame keeps the K arguments AND needs %(NL)d more registers
+  local %(WIDE)s
+  local x = coroutine.yield("got")
+  return "done", x, (w1 == nil)
+end
+%(make)s
+local r = {pcall(%(resume)s unpack(big, 1, K))}
+report(K, 1, 2, r)
+if not (r[1] and r[2] == true) then report(2, 1, 2, {pcall(%(resume)s 1, 2)}) end
+report(1, 5, nil, {pcall(%(resume)s 5)})
+""", 3),
+    # a coroutine yields a long list to a resumer whose register file is nearly full
+    "yieldbig": ("""
+local v = 5
+local function get() return v end
+local body = function(a)
+  co = co or coroutine.running()
+  local x = coroutine.yield(unpack(big, 1, K))
+  v = v + 1
+  return "cdone", x, get()
+end
+%(make)s
+deep(D, function() report(1, 7, nil, {pcall(%(resume)s 7)}) return 0 end)
+report(1, 33, nil, {pcall(%(resume)s 33)})
+""", 2),
+    # a coroutine returns a long list to a resumer whose register file is nearly full
+    "returnbig": ("""
+local body = function(a)
+  co = co or coroutine.running()
+  return unpack(big, 1, K)
+end
+%(make)s
+deep(D, function() report(1, 7, nil, {pcall(%(resume)s 7)}) return 0 end)
+""", 1),
+}
+
+
+def co_scenario(scen, via, K, D, m, nested=False, NL=60):
+    body, nev = CO_SCENARIOS[scen]
+    if via == "resume":
+        make, resume = "co = coroutine.create(body)", "coroutine.resume, co,"
+    else:
+        make, resume = "local wf = coroutine.wrap(body)", "wf,"
+    src = CO_PRELUDE % {"K": K, "D": D, "LOC": CO_LOCALS} + body % {"make": make, "resume": resume, "NL": NL, "WIDE": ", ".join("w%d" % i for i in range(1, NL + 1))} + \
+        CO_EPILOGUE % {"follow": follow(m)}
+    src = src.replace(", )", ")")
+    if nested:
+        src = "coroutine.wrap(function()\n" + src + "\nend)()\n"
+    return {"scen": scen, "via": via, "nested": nested, "src": src, "nev": nev, "K": K, "D": D, "fm": m}
